@@ -101,7 +101,7 @@ func (x *Exec) devirtualize(fr *frame, st *State, cc *ssa.CallCommon, recv Val, 
 	// unknown dynamic type
 	other := st.clone()
 	x.havocCall(other, cc, "invoke with a dynamic type outside the module: "+key)
-	otherRes := x.freshResults(sig, "dyn_"+cc.Method.Name())
+	otherRes := x.unknownDynResults(key, recv, sig, cc.Method.Name())
 	// merge: start from "other", override per known implementation
 	accSt := other
 	acc := otherRes
@@ -119,4 +119,20 @@ func (x *Exec) devirtualize(fr *frame, st *State, cc *ssa.CallCommon, recv Val, 
 	*st = *accSt
 	x.c.Note("interface call %s resolved over the %d module implementations (plus an arbitrary outcome for foreign dynamic types)", key, len(impls))
 	return acc, true
+}
+
+// unknownDynResults: the results of an interface method on a dynamic type outside
+// the module. For a parameterless method with one scalar result it is a
+// deterministic (uninterpreted) function of the receiver, so that the code and a
+// spec that mention the same call agree; otherwise arbitrary values.
+func (x *Exec) unknownDynResults(key string, recv Val, sig *types.Signature, method string) []Val {
+	if sig.Params().Len() == 0 && sig.Results().Len() == 1 && len(recv.L) == 2 {
+		rt := sig.Results().At(0).Type()
+		ls := shape(rt)
+		if len(ls) == 1 {
+			t := x.c.App("dyncall_"+sanitize(key), ls[0].Sort, recv.L[0], recv.L[1])
+			return []Val{{T: rt, L: []Term{t}}}
+		}
+	}
+	return x.freshResults(sig, "dyn_"+method)
 }
